@@ -141,8 +141,12 @@ func runChain(c *fw.Ctx, i int) {
 	var size uint64
 	var k, mainLen int
 	if large {
-		size = largeSizes[(c.Batch+i/3)%len(largeSizes)]
+		slot := (c.Batch + i/3) % len(largeSizes)
+		size = largeSizes[slot]
 		k = 1
+		if slot == 2 {
+			k = 2 // two sections of 2048: a state with the index half way
+		}
 		mainLen = bloomConfirms + int(size)*k - 1 + r.Range(0, 40)
 	} else {
 		sizes := sectionSizes(c)
@@ -159,8 +163,12 @@ func runChain(c *fw.Ctx, i int) {
 	d := chainDesc{Chain: i, Config: configs[cfgi].name, Size: size, MainLen: mainLen,
 		Threads: r.Range(1, 3), Batch: []int{1, 2, 16}[r.Intn(3)], WaitUs: []int{0, 0, 200}[r.Intn(3)], Withhold: r.Chance(1, 3)}
 	if large {
-		// no section yet; one block short of the first section's confirmation; all
-		d.Cuts = []int{r.Range(3, int(size)-1), bloomConfirms + int(size) - 2, mainLen}
+		// no section yet; one block short of the first section's confirmation; (k=2: one of two sections;) all
+		d.Cuts = []int{r.Range(3, int(size)-1), bloomConfirms + int(size) - 2}
+		if k == 2 {
+			d.Cuts = append(d.Cuts, bloomConfirms+int(size)-1+r.Range(0, int(size)-2))
+		}
+		d.Cuts = append(d.Cuts, mainLen)
 		d.Withhold = (c.Batch+i/3)%2 == 0
 	} else {
 		j1 := r.Range(1, k)
@@ -171,8 +179,8 @@ func runChain(c *fw.Ctx, i int) {
 	}
 	d.Shallow = r.Range(1, 9)
 	switch {
-	case large && (c.Batch+i/3)%2 == 1:
-		d.DeepFork = int(size) - r.Range(1, 40) // inside section 0: the reorg invalidates it
+	case large:
+		d.DeepFork = int(size)*k - r.Range(1, 40) // inside the last indexed section: the reorg invalidates it
 	case !large && global%4 == 1:
 		d.DeepFork = r.Range(1, int(size)*k-1) // below the indexed boundary: invalidates sections
 	}
